@@ -46,8 +46,8 @@ void Parser::parseTranslationUnit(TranslationUnitSyntax*& unit)
                 auto extKwTkIdx = consume();
                 if (!parseExternalDeclaration(decl))
                     break;
-                PSY_ASSERT_2(decl, break);
-                decl->extKwTkIdx_ = extKwTkIdx;
+                if (decl)
+                    decl->extKwTkIdx_ = extKwTkIdx;
                 break;
             }
 
